@@ -134,7 +134,7 @@ Qed.
 Lemma classify_inv ps :
   match classify ps with
   | KDel => is_del ps = true
-  | KNak => is_nak ps = true /\ is_del ps = false
+  | KNak => is_nak ps = true /\ is_del ps = false /\ is_ack ps = false
   | KFinal => is_final_ls ps = true /\ is_ls ps = true /\ is_del ps = false /\ is_ack ps = false
   | KCont => is_cont_ls ps = true /\ is_ls ps = true /\ is_del ps = false /\ is_ack ps = false
   | KAck => is_ack ps = true /\ is_del ps = false /\ is_ls ps = false
@@ -143,7 +143,11 @@ Lemma classify_inv ps :
 Proof.
   unfold classify.
   destruct (is_del ps) eqn:E1; [reflexivity|].
-  destruct (is_nak ps) eqn:E2; [auto|].
+  destruct (is_nak ps) eqn:E2.
+  { split; [reflexivity|split; [reflexivity|]].
+    destruct lit_distinct as (D1 & D2 & D3 & D4 & D5 & D6 & D7 & D8 & D9 & D10).
+    unfold is_nak in E2. apply andb_true_iff in E2 as [_ E2].
+    unfold is_ack. rewrite (sub_is_excl ps s_NAK s_ACK E2), andb_false_r by congruence. reflexivity. }
   destruct (is_final_ls ps) eqn:E3.
   { pose proof E3 as E3'. unfold is_final_ls in E3'. apply andb_true_iff in E3' as [L _].
     destruct (is_ls_sub ps L) as (_ & _ & A). unfold is_ack. rewrite A, andb_false_r. auto. }
@@ -255,7 +259,7 @@ Proof.
         (sub_is_excl ps s_DEL s_NEW I), (sub_is_excl ps s_DEL s_ACK I) by congruence.
       rewrite !andb_false_r. auto. }
     rewrite A, B, D. auto.
-  - destruct I as (I1 & I2). rewrite (C1 I1), I1. auto.
+  - destruct I as (I1 & I2 & _). rewrite (C1 I1), I1. auto.
   - destruct I as (I1 & I2 & I3 & I4). rewrite I1, orb_true_r. cbn [orb].
     destruct (C2 I1) as [[H _]|[_ H]]; rewrite H; auto.
   - destruct I as (I1 & I2 & I3 & I4). rewrite (C4 I1).
@@ -329,3 +333,569 @@ Proof.
     + split; [discriminate|]. intros [_ H]. discriminate.
   - split; [discriminate|]. intros [(t & E & _) _]. discriminate.
 Qed.
+
+(* ====================================================================== *)
+(* 4. the enabled-capability ledger and HasCapability                       *)
+(* ====================================================================== *)
+
+Lemma enabled_by_nil k : ~ enabled_by [] k.
+Proof. intros (pre & post & E & _). destruct pre; discriminate. Qed.
+
+Lemma enabled_by_snoc_add ops k' k : enabled_by (ops ++ [OpAdd k']) k <-> k' = k \/ enabled_by ops k.
+Proof.
+  split.
+  - intros (pre & post & E & N). induction post as [|x post _] using rev_ind.
+    + change (pre ++ [OpAdd k]) with (pre ++ [OpAdd k]) in E. apply app_inj_tail in E as [_ E]. left. congruence.
+    + right. rewrite app_comm_cons, app_assoc in E. apply app_inj_tail in E as [E _].
+      exists pre, post. split; [exact E|]. intro H. apply N. apply in_or_app. auto.
+  - intros [->|(pre & post & E & N)].
+    + exists ops, []. split; [reflexivity|]. intros [].
+    + exists pre, (post ++ [OpAdd k']). split; [rewrite E, <- app_assoc; reflexivity|].
+      intro H. apply in_app_or in H as [H|[H|[]]]; [auto|discriminate].
+Qed.
+
+Lemma enabled_by_snoc_rem ops k' k : enabled_by (ops ++ [OpRem k']) k <-> k' <> k /\ enabled_by ops k.
+Proof.
+  split.
+  - intros (pre & post & E & N). induction post as [|x post _] using rev_ind.
+    + apply app_inj_tail in E as [_ E]. discriminate.
+    + rewrite app_comm_cons, app_assoc in E. apply app_inj_tail in E as [E E'].
+      subst x. split.
+      * intro H. apply N. apply in_or_app. right. left. congruence.
+      * exists pre, post. split; [exact E|]. intro H. apply N. apply in_or_app. auto.
+  - intros [D (pre & post & E & N)].
+    exists pre, (post ++ [OpRem k']). split; [rewrite E, <- app_assoc; reflexivity|].
+    intro H. apply in_app_or in H as [H|[H|[]]]; [auto|congruence].
+Qed.
+
+Lemma enabled_by_app_rems ops ks k :
+  enabled_by (ops ++ List.map OpRem ks) k <-> enabled_by ops k /\ ~ In k ks.
+Proof.
+  induction ks as [|x ks IH] using rev_ind; cbn [List.map].
+  - rewrite app_nil_r. tauto.
+  - rewrite map_app. cbn [List.map]. rewrite app_assoc, enabled_by_snoc_rem, IH. split.
+    + intros (D & E & N). split; [exact E|]. intro H. apply in_app_or in H as [H|[H|[]]]; [auto|congruence].
+    + intros (E & N). split; [|split; [exact E|]]; intro H; apply N; apply in_or_app; [right; left; congruence|auto].
+Qed.
+
+Definition Rep (en : capmap) (ops : list cap_op) : Prop :=
+  forall k, In k (akeys en) <-> enabled_by ops k.
+
+Lemma rep_nil : Rep [] [].
+Proof. intro k. split; [intros []|intro H; exact (enabled_by_nil k H)]. Qed.
+
+Lemma rep_add en ops k v : Rep en ops -> Rep (aset k v en) (ops ++ [OpAdd k]).
+Proof. intros R x. rewrite akeys_aset, enabled_by_snoc_add, (R x). split; intros [H|H]; auto. Qed.
+
+Lemma rep_rem en ops k : Rep en ops -> Rep (adel k en) (ops ++ [OpRem k]).
+Proof.
+  intros R x. rewrite akeys_adel, enabled_by_snoc_rem, (R x). split; intros [H1 H2]; split; auto.
+Qed.
+
+Lemma rep_app_nil en ops : Rep en ops -> Rep en (ops ++ []).
+Proof. now rewrite app_nil_r. Qed.
+
+(* the only place that depends on what an ACK token means *)
+Lemma rep_ack_step tmp en ops tok : Rep en ops -> Rep (ack_step tmp en tok) (ops ++ ack_ops tok).
+Proof. intros R. unfold ack_step, ack_ops. destruct (aget tok tmp); now apply rep_add. Qed.
+
+Lemma rep_ack_fold tmp toks : forall en ops,
+  Rep en ops -> Rep (fold_left (ack_step tmp) toks en) (ops ++ flat_map ack_ops toks).
+Proof.
+  induction toks as [|tok toks IH]; intros en ops R; cbn [fold_left flat_map].
+  - now apply rep_app_nil.
+  - rewrite app_assoc. apply IH. now apply rep_ack_step.
+Qed.
+
+Lemma rep_rems en ops ks ks' :
+  Rep en ops -> (forall k, In k ks <-> In k ks') ->
+  Rep (fold_left (fun en k => adel k en) ks en) (ops ++ List.map OpRem ks').
+Proof.
+  intros R S k. rewrite akeys_fold_adel, enabled_by_app_rems, (R k), (S k). tauto.
+Qed.
+
+(* ---- parseCap: the names it yields are the token names ------------------ *)
+Lemma parse_part_key out part : exists v, parse_part out part = aset (cap_token_name part) v out.
+Proof.
+  unfold parse_part, cap_token_name.
+  destruct (index_byte 61 part) as [[|j]|] eqn:E; [change (Nat.ltb 0 1) with true; cbn [orb]; eauto| |eauto].
+  pose proof (index_byte_lt _ _ _ E) as L.
+  assert (Nat.ltb (length part) (S j + 1) = false) as -> by (apply Nat.ltb_ge; lia).
+  assert (Nat.ltb (S j) 1 = false) as -> by (apply Nat.ltb_ge; lia).
+  cbn [orb]. eauto.
+Qed.
+
+Lemma parse_parts_keys parts : forall acc k,
+  In k (akeys (fold_left parse_part parts acc)) <->
+  In k (List.map cap_token_name parts) \/ In k (akeys acc).
+Proof.
+  induction parts as [|p parts IH]; intros acc k; cbn [fold_left List.map In]; [tauto|].
+  destruct (parse_part_key acc p) as [v ->]. rewrite IH, akeys_aset. split; intros H; intuition congruence.
+Qed.
+
+Lemma parse_cap_keys raw k :
+  In k (akeys (parse_cap raw)) <-> In k (List.map cap_token_name (split_byte 32 raw)).
+Proof. unfold parse_cap. rewrite parse_parts_keys. cbn. tauto. Qed.
+
+Lemma cap_token_name_no_space tok : ~ In 32 tok -> ~ In 32 (cap_token_name tok).
+Proof.
+  unfold cap_token_name. destruct (index_byte 61 tok) as [[|j]|]; auto. apply firstn_no_sep.
+Qed.
+
+(* ---- one event ------------------------------------------------------------ *)
+Lemma step_rep cfg st i ops :
+  Rep (st_enabled st) ops ->
+  Rep (st_enabled (fst (cap_step cfg st i))) (ops ++ event_ops (in_params i)).
+Proof.
+  intros R. unfold cap_step, event_ops. rewrite handle_cap_by_kind.
+  pose proof (classify_inv (in_params i)) as I.
+  destruct (classify (in_params i)).
+  - rewrite I. cbn [fst st_enabled]. rewrite <- map_map. apply rep_rems; [exact R|].
+    intro k. apply parse_cap_keys.
+  - destruct I as (_ & -> & ->). now apply rep_app_nil.
+  - destruct I as (_ & _ & -> & ->). cbv zeta.
+    destruct (Nat.eqb _ 0); now apply rep_app_nil.
+  - destruct I as (_ & _ & -> & ->). now apply rep_app_nil.
+  - destruct I as (-> & -> & _). rewrite ack_result_enabled. now apply rep_ack_fold.
+  - destruct I as (-> & _ & _ & ->). now apply rep_app_nil.
+Qed.
+
+Lemma run_rep cfg h : forall st ops,
+  Rep (st_enabled st) ops -> Rep (st_enabled (cap_after cfg st h)) (ops ++ history_ops h).
+Proof.
+  induction h as [|i h IH]; intros st ops R; cbn [cap_after history_ops flat_map].
+  - now apply rep_app_nil.
+  - rewrite app_assoc. apply IH. now apply step_rep.
+Qed.
+
+Lemma C08_enabled_exact_proof cfg s0 h k :
+  amem k (st_enabled (cap_after cfg (cap_init s0) h)) = true <-> enabled_by (history_ops h) k.
+Proof.
+  rewrite amem_In. apply (run_rep cfg h (cap_init s0) [] rep_nil k).
+Qed.
+
+Lemma has_capability_iff connected en n :
+  has_capability connected en n = true <->
+  connected = true /\ exists k, In k (akeys en) /\ to_lower_ascii k = to_lower_ascii n.
+Proof.
+  unfold has_capability. rewrite andb_true_iff, existsb_exists. split; intros [C H]; (split; [exact C|]).
+  - destruct H as (kv & H1 & H2). exists (fst kv). split; [apply in_map; exact H1|now apply streqb_iff].
+  - destruct H as (k & H1 & H2). unfold akeys in H1. apply in_map_iff in H1 as (kv & <- & H1).
+    exists kv. split; [exact H1|now apply streqb_iff].
+Qed.
+
+Lemma C08_has_capability_ops_proof cfg s0 h connected n :
+  has_capability connected (st_enabled (cap_after cfg (cap_init s0) h)) n = true <->
+  connected = true /\
+  exists k, to_lower_ascii k = to_lower_ascii n /\ enabled_by (history_ops h) k.
+Proof.
+  rewrite has_capability_iff. split; intros [C (k & H1 & H2)]; (split; [exact C|]); exists k.
+  - split; [exact H2|]. apply (proj1 (C08_enabled_exact_proof cfg s0 h k)). now apply amem_In.
+  - split; [|exact H1]. apply amem_In. now apply (proj2 (C08_enabled_exact_proof cfg s0 h k)).
+Qed.
+
+(* ---- from operations back to events ------------------------------------------ *)
+Lemma flat_map_split {A B} (f : A -> list B) (h : list A) : forall pre x post,
+  flat_map f h = pre ++ x :: post ->
+  exists h1 i h2 a b, h = h1 ++ i :: h2 /\ f i = a ++ x :: b /\
+                      pre = flat_map f h1 ++ a /\ post = b ++ flat_map f h2.
+Proof.
+  induction h as [|i h IH]; intros pre x post E; cbn [flat_map] in E.
+  - destruct pre; discriminate.
+  - apply app_eq_app in E as [l [[E1 E2]|[E1 E2]]].
+    + (* f i = pre ++ l, x :: post = l ++ flat_map f h *)
+      destruct l as [|y l].
+      * cbn in E2. rewrite app_nil_r in E1.
+        destruct (IH [] x post (eq_sym E2)) as (h1 & j & h2 & a & b & H1 & H2 & H3 & H4).
+        exists (i :: h1), j, h2, a, b. subst h. repeat split; auto.
+        cbn [flat_map]. rewrite <- app_assoc, <- H3, app_nil_r. exact (eq_sym E1).
+      * cbn in E2. inversion E2; subst y. exists [], i, h, pre, l. repeat split; auto.
+    + destruct (IH l x post E2) as (h1 & j & h2 & a & b & H1 & H2 & H3 & H4).
+      exists (i :: h1), j, h2, a, b. subst h. repeat split; auto.
+      cbn [flat_map]. rewrite <- app_assoc, <- H3. exact E1.
+Qed.
+
+(* k is enabled after the history iff some line enables it (adds it and does not remove it
+   again further along the same line) and no later line removes it *)
+Lemma enabled_by_events h k :
+  enabled_by (history_ops h) k <->
+  exists h1 i h2, h = h1 ++ i :: h2 /\ enabled_by (event_ops (in_params i)) k /\
+                  forall j, In j h2 -> ~ removes j k.
+Proof.
+  unfold history_ops. split.
+  - intros (pre & post & E & N).
+    destruct (flat_map_split _ _ _ _ _ E) as (h1 & i & h2 & a & b & H1 & H2 & H3 & H4).
+    exists h1, i, h2. split; [exact H1|]. subst post. split.
+    + exists a, b. split; [exact H2|]. intro H. apply N. apply in_or_app. auto.
+    + intros j Hj R. apply N. apply in_or_app. right. apply in_flat_map. exists j. auto.
+  - intros (h1 & i & h2 & -> & (a & b & E & N) & L).
+    exists (flat_map (fun i => event_ops (in_params i)) h1 ++ a),
+           (b ++ flat_map (fun i => event_ops (in_params i)) h2).
+    split.
+    + rewrite flat_map_app. cbn [flat_map]. rewrite E, <- !app_assoc. reflexivity.
+    + intro H. apply in_app_or in H as [H|H]; [auto|].
+      apply in_flat_map in H as (j & Hj & H). exact (L j Hj H).
+Qed.
+
+(* what one line adds / removes — the reading of ACK tokens of the CURRENT code *)
+Lemma acks_iff ps k :
+  enabled_by (event_ops ps) k <-> is_ack ps = true /\ is_del ps = false /\ In k (cap_tokens ps).
+Proof.
+  unfold event_ops. destruct (is_del ps) eqn:D.
+  - split; [|intros (_ & H & _); discriminate].
+    intros (a & b & E & _). exfalso.
+    assert (H : In (OpAdd k) (List.map (fun tok => OpRem (cap_token_name tok)) (cap_tokens ps))).
+    { rewrite E. apply in_or_app. right. left. reflexivity. }
+    apply in_map_iff in H as (t & H & _). discriminate.
+  - destruct (is_ack ps) eqn:A.
+    + assert (F : forall l, flat_map ack_ops l = List.map OpAdd l).
+      { induction l as [|x l IH]; cbn; [reflexivity|]. now rewrite IH. }
+      rewrite F. split.
+      * intros (a & b & E & _). repeat split.
+        assert (H : In (OpAdd k) (List.map OpAdd (cap_tokens ps))) by (rewrite E; apply in_or_app; right; left; reflexivity).
+        apply in_map_iff in H as (t & H & Ht). congruence.
+      * intros (_ & _ & H). apply in_split in H as (l1 & l2 & ->).
+        exists (List.map OpAdd l1), (List.map OpAdd l2). split; [now rewrite map_app|].
+        intro H. apply in_map_iff in H as (t & H & _). discriminate.
+    + split; [intro H; exfalso; exact (enabled_by_nil k H)|intros (H & _); discriminate].
+Qed.
+
+Lemma removes_iff i k :
+  removes i k <-> is_del (in_params i) = true /\
+                  In k (List.map cap_token_name (cap_tokens (in_params i))).
+Proof.
+  unfold removes, event_ops. destruct (is_del (in_params i)) eqn:D.
+  - rewrite <- map_map. split.
+    + intro H. apply in_map_iff in H as (t & H & Ht). split; [reflexivity|congruence].
+    + intros [_ H]. now apply in_map.
+  - split; [|intros [H _]; discriminate]. destruct (is_ack (in_params i)).
+    + intro H. apply in_flat_map in H as (t & _ & [H|[]]). discriminate.
+    + intros [].
+Qed.
+
+Lemma C08_has_capability_proof cfg s0 h connected n :
+  has_capability connected (st_enabled (cap_after cfg (cap_init s0) h)) n = true <->
+  connected = true /\
+  exists k, to_lower_ascii k = to_lower_ascii n /\
+  exists h1 i h2, h = h1 ++ i :: h2 /\
+    (is_ack (in_params i) = true /\ In k (cap_tokens (in_params i))) /\
+    forall j, In j h2 ->
+      ~ (is_del (in_params j) = true /\ In k (List.map cap_token_name (cap_tokens (in_params j)))).
+Proof.
+  rewrite C08_has_capability_ops_proof. split; intros [C (k & L & H)]; (split; [exact C|]); exists k; (split; [exact L|]).
+  - apply enabled_by_events in H as (h1 & i & h2 & E & A & R). exists h1, i, h2. split; [exact E|].
+    apply acks_iff in A as (A1 & _ & A2). split; [auto|]. intros j Hj Hr. apply (R j Hj). now apply removes_iff.
+  - destruct H as (h1 & i & h2 & E & (A1 & A2) & R). apply enabled_by_events. exists h1, i, h2.
+    split; [exact E|]. split.
+    + apply acks_iff. repeat split; auto.
+      pose proof (classify_inv (in_params i)) as I. rewrite (classify_ack _ A1) in I. tauto.
+    + intros j Hj Hr. apply (R j Hj). now apply removes_iff.
+Qed.
+
+(* tags at the socket, over histories *)
+Lemma C08_tags_gated_history_proof cfg s0 h tags :
+  tag_section_present (send_loop_tags (st_enabled (cap_after cfg (cap_init s0) h)) tags) = true <->
+  has_tags tags /\ enabled_by (history_ops h) s_message_tags.
+Proof. rewrite C08_tags_gated_proof, C08_enabled_exact_proof. tauto. Qed.
+
+(* ====================================================================== *)
+(* 5. CAP REQ is safe                                                       *)
+(* ====================================================================== *)
+
+(* ---- possibleCapList ------------------------------------------------------- *)
+Lemma akeys_fold_builtin (l : list str) x (m : amap (list str)) :
+  In x (akeys (fold_left (fun o k => aset k [] o) l m)) <-> In x l \/ In x (akeys m).
+Proof.
+  revert m; induction l as [|k l IH]; intro m; cbn [fold_left In]; [tauto|].
+  rewrite IH, akeys_aset. split; intros H; intuition congruence.
+Qed.
+
+Lemma possible_caps_keys cfg r k :
+  In k (akeys (possible_caps cfg r)) <->
+  In k builtin_caps \/ In k (akeys (c_supported cfg)) \/
+  (k = s_sasl /\ c_sasl cfg <> None) \/
+  (k = s_sts /\ c_disable_sts cfg = false /\ c_ssl cfg = false /\
+   (r && negb (c_disable_fallback cfg)) = false).
+Proof.
+  unfold possible_caps. cbv zeta. rewrite akeys_fold_builtin, akeys_fold_aset_pairs.
+  fold (akeys (c_supported cfg)).
+  destruct (c_sasl cfg) as [m|]; destruct (c_disable_sts cfg); destruct (c_ssl cfg);
+    destruct (r && negb (c_disable_fallback cfg)); cbn [negb andb];
+    rewrite ?akeys_aset; cbn [akeys List.map In]; split; intros H;
+    repeat match goal with
+           | H : _ \/ _ |- _ => destruct H as [H|H]
+           | H : _ /\ _ |- _ => destruct H
+           end; subst; try tauto; try congruence; try discriminate; auto 10.
+  all: try (right; right; left; split; [reflexivity|discriminate]).
+Qed.
+
+Lemma possible_caps_supported cfg r k :
+  amem k (possible_caps cfg r) = true -> supported_spec cfg k.
+Proof.
+  rewrite amem_In, possible_caps_keys. unfold supported_spec. intros [H|[H|[H|(H1 & H2 & H3 & _)]]]; auto 10.
+Qed.
+
+Lemma supported_possible cfg k :
+  supported_spec cfg k -> amem k (possible_caps cfg false) = true.
+Proof.
+  rewrite amem_In, possible_caps_keys. unfold supported_spec. intros [H|[H|[H|(H1 & H2 & H3)]]]; auto 10.
+Qed.
+
+Lemma C08_supported_exact_proof cfg k :
+  (forall r, amem k (possible_caps cfg r) = true -> supported_spec cfg k) /\
+  (supported_spec cfg k -> amem k (possible_caps cfg false) = true).
+Proof. split; [intro r; apply possible_caps_supported|apply supported_possible]. Qed.
+
+(* ---- the LS loop ------------------------------------------------------------- *)
+Lemma contains_loop_nonempty (pv : list str) (vals : amap str) :
+  pv <> [] -> vals <> [] -> contains_loop pv vals = true.
+Proof.
+  intros P V. destruct vals as [|[a b] vals]; [congruence|]. destruct pv as [|p pv]; [congruence|].
+  unfold contains_loop. cbn [existsb fst]. unfold amem. cbn [aget]. rewrite streqb_same. reflexivity.
+Qed.
+
+Lemma ls_step_keys possible tmp kv k :
+  In k (akeys (ls_step possible tmp kv)) <->
+  In k (akeys tmp) \/ (k = fst kv /\ amem k possible = true).
+Proof.
+  unfold ls_step. destruct (aget (fst kv) possible) as [pv|] eqn:G.
+  - assert (M : amem (fst kv) possible = true) by (unfold amem; now rewrite G).
+    assert (A : forall v, In k (akeys (aset (fst kv) v tmp)) <->
+                          In k (akeys tmp) \/ (k = fst kv /\ amem k possible = true)).
+    { intro v. rewrite akeys_aset. split; intros [H|H]; auto; [subst; auto|tauto]. }
+    destruct (Nat.eqb (length pv) 0 || Nat.eqb (cv_len (snd kv)) 0)%bool eqn:Z; [apply A|].
+    apply orb_false_iff in Z as [Z1 Z2].
+    rewrite contains_loop_nonempty; [apply A| |].
+    + destruct pv; [discriminate|discriminate].
+    + unfold cv_len in Z2. destruct (snd kv) as [m|]; [|discriminate]. cbn. destruct m; discriminate.
+  - split; [auto|]. intros [H|[-> H]]; [exact H|]. unfold amem in H. rewrite G in H. discriminate.
+Qed.
+
+Lemma ls_fold_keys possible caps : forall tmp k,
+  In k (akeys (fold_left (ls_step possible) caps tmp)) <->
+  In k (akeys tmp) \/ (In k (akeys caps) /\ amem k possible = true).
+Proof.
+  induction caps as [|kv caps IH]; intros tmp k; cbn [fold_left]; [cbn; tauto|].
+  change (akeys (kv :: caps)) with (fst kv :: akeys caps). cbn [In].
+  rewrite IH, ls_step_keys. split; intros H; intuition (subst; auto).
+Qed.
+
+Lemma tmp_after_ls_keys cfg now st ps k :
+  In k (akeys (tmp_after_ls cfg now st ps)) <->
+  In k (akeys (st_tmp st)) \/
+  (In k (List.map cap_token_name (cap_tokens ps)) /\
+   amem k (possible_caps cfg (recently_failed now (st_sts st))) = true).
+Proof. unfold tmp_after_ls. rewrite ls_fold_keys, parse_cap_keys. reflexivity. Qed.
+
+(* ---- the invariant: tmpCap ⊆ advertised ∩ supported, names without SPACE ------- *)
+Definition TmpInv (cfg : cap_cfg) (h : list cap_in) (tmp : capmap) : Prop :=
+  forall k, In k (akeys tmp) -> advertised_in h k /\ supported_spec cfg k /\ ~ In 32 k.
+
+Lemma advertised_in_mono h h' k : advertised_in h k -> advertised_in (h ++ h') k.
+Proof. intros (i & Hi & A). exists i. split; [apply in_or_app; auto|exact A]. Qed.
+
+Lemma TmpInv_mono cfg h h' tmp : TmpInv cfg h tmp -> TmpInv cfg (h ++ h') tmp.
+Proof. intros T k Hk. destruct (T k Hk) as (A & B & C). split; [now apply advertised_in_mono|auto]. Qed.
+
+Lemma ack_result_tmp cfg tls now st ps :
+  st_tmp (fst (ack_result cfg tls now st ps)) = [] \/
+  st_tmp (fst (ack_result cfg tls now st ps)) = st_tmp st.
+Proof.
+  unfold ack_result. cbv zeta.
+  assert (F : forall s, st_tmp (fst (ack_finish cfg (en_after_ack st ps) s)) = []).
+  { intro s. unfold ack_finish. destruct (aget s_sasl _); [destruct (c_sasl cfg)|]; reflexivity. }
+  destruct (aget s_sts (en_after_ack st ps)) as [v|]; [destruct (negb (c_disable_sts cfg))|]; auto.
+  destruct (snd (sts_block tls now v (st_sts st))); [auto|]. destruct (negb tls); auto.
+Qed.
+
+Lemma step_tmp_inv cfg h st i :
+  TmpInv cfg h (st_tmp st) -> TmpInv cfg (h ++ [i]) (st_tmp (fst (cap_step cfg st i))).
+Proof.
+  intros T. unfold cap_step. rewrite handle_cap_by_kind.
+  pose proof (classify_inv (in_params i)) as I.
+  assert (LS : is_ls (in_params i) = true ->
+               TmpInv cfg (h ++ [i]) (tmp_after_ls cfg (in_now i) st (in_params i))).
+  { intros L k Hk. apply tmp_after_ls_keys in Hk as [Hk|[Hk Hp]].
+    - now apply (TmpInv_mono cfg h [i] _ T).
+    - split; [|split].
+      + exists i. split; [apply in_or_app; right; left; reflexivity|]. split; assumption.
+      + eapply possible_caps_supported; eassumption.
+      + apply in_map_iff in Hk as (tok & <- & Ht). apply cap_token_name_no_space.
+        eapply split_byte_no_sep. exact Ht. }
+  destruct (classify (in_params i)); cbv zeta.
+  - now apply TmpInv_mono.
+  - now apply TmpInv_mono.
+  - destruct I as (_ & L & _). destruct (Nat.eqb _ 0); now apply LS.
+  - destruct I as (_ & L & _). now apply LS.
+  - destruct (ack_result_tmp cfg (in_tls i) (in_now i) st (in_params i)) as [->| ->].
+    + intros k [].
+    + now apply TmpInv_mono.
+  - now apply TmpInv_mono.
+Qed.
+
+Lemma run_tmp_inv cfg h : forall st h0,
+  TmpInv cfg h0 (st_tmp st) -> TmpInv cfg (h0 ++ h) (st_tmp (cap_after cfg st h)).
+Proof.
+  induction h as [|i h IH]; intros st h0 T; cbn [cap_after].
+  - now rewrite app_nil_r.
+  - replace (h0 ++ i :: h) with ((h0 ++ [i]) ++ h) by (rewrite <- app_assoc; reflexivity).
+    apply IH. now apply step_tmp_inv.
+Qed.
+
+Lemma reachable_tmp_inv cfg s0 h : TmpInv cfg h (st_tmp (cap_after cfg (cap_init s0) h)).
+Proof. apply (run_tmp_inv cfg h (cap_init s0) []). intros k []. Qed.
+
+(* a REQ among the outputs of one event is the REQ of the new tmpCap *)
+Lemma step_req_inv ord cfg tls now st ps toks :
+  In (Write s_CAP [s_REQ; toks]) (snd (handle_cap ord cfg tls now st ps)) ->
+  let tmp' := st_tmp (fst (handle_cap ord cfg tls now st ps)) in
+  tmp' <> [] /\ toks = join [32] (ord (akeys tmp')).
+Proof.
+  pose proof (C08_concludes_proof ord cfg tls now st ps) as C. cbv zeta in C.
+  destruct C as (C1 & C2 & C3 & C4 & C5 & C6). cbv zeta.
+  pose proof (classify_inv ps) as I. intros H.
+  destruct (classify ps).
+  - rewrite (C5 I) in H. destruct H.
+  - destruct I as (I1 & _). rewrite (C1 I1) in H. destruct H as [H|[]]. discriminate.
+  - destruct I as (I1 & _). destruct (C2 I1) as [[E _]|[N E]]; rewrite E in H; destruct H as [H|[]].
+    + discriminate.
+    + unfold out_REQ in H. inversion H. auto.
+  - destruct I as (I1 & _). rewrite (C4 I1) in H. destruct H.
+  - destruct I as (I1 & _).
+    destruct (C3 I1) as [E|[(m & _ & _ & E)|[(E & _)|(v & E & _)]]]; rewrite E in H;
+      destruct H as [H|[]]; discriminate.
+  - destruct I as (I1 & I2 & I3 & I4).
+    rewrite C6 in H; [destruct H|]. unfold expects_conclusion, is_final_ls. now rewrite I2, I3, I4.
+Qed.
+
+Lemma C08_req_safe_proof cfg s0 h i toks name :
+  ord_sound (in_ord i) -> ord_complete (in_ord i) ->
+  In (Write s_CAP [s_REQ; toks]) (snd (cap_step cfg (cap_after cfg (cap_init s0) h) i)) ->
+  In name (split_byte 32 toks) ->
+  advertised_in (h ++ [i]) name /\ supported_spec cfg name.
+Proof.
+  intros OS OC HW HN.
+  pose proof (step_tmp_inv cfg h _ i (reachable_tmp_inv cfg s0 h)) as T.
+  unfold cap_step in *. apply step_req_inv in HW. cbv zeta in HW. destruct HW as [NE ->].
+  set (tmp' := st_tmp (fst (handle_cap (in_ord i) cfg (in_tls i) (in_now i)
+                                       (cap_after cfg (cap_init s0) h) (in_params i)))) in *.
+  rewrite split_join in HN.
+  - apply OS in HN. destruct (T name HN) as (A & B & _). auto.
+  - destruct tmp' as [|[k v] tmp2] eqn:E; [congruence|]. intro Z.
+    assert (In k (in_ord i (akeys ((k, v) :: tmp2)))) as Hk by (apply OC; left; reflexivity).
+    rewrite Z in Hk. destruct Hk.
+  - intros x Hx. apply OS in Hx. destruct (T x Hx) as (_ & _ & S). exact S.
+Qed.
+
+Lemma not_builtin_sasl : ~ In s_sasl builtin_caps.
+Proof. cbv. intuition discriminate. Qed.
+Lemma not_builtin_sts : ~ In s_sts builtin_caps.
+Proof. cbv. intuition discriminate. Qed.
+
+Lemma C08_req_sasl_sts_proof cfg :
+  (supported_spec cfg s_sasl -> c_sasl cfg <> None \/ In s_sasl (akeys (c_supported cfg))) /\
+  (supported_spec cfg s_sts ->
+     (c_disable_sts cfg = false /\ c_ssl cfg = false) \/ In s_sts (akeys (c_supported cfg))).
+Proof.
+  unfold supported_spec. split; intros [H|[H|[[H1 H2]|[H1 H2]]]]; auto.
+  - exfalso. exact (not_builtin_sasl H).
+  - discriminate.
+  - exfalso. exact (not_builtin_sts H).
+  - discriminate.
+Qed.
+
+(* completeness of a REQ: on the final line of an LS/NEW, everything that line
+   advertises and the client can support right now is requested (together with what
+   earlier lines of the listing left in tmpCap) *)
+Lemma C08_req_complete_proof cfg st i name :
+  ord_complete (in_ord i) ->
+  is_final_ls (in_params i) = true ->
+  advertised_by (in_params i) name ->
+  amem name (possible_caps cfg (recently_failed (in_now i) (st_sts st))) = true ->
+  exists names, snd (cap_step cfg st i) = [out_REQ names] /\ In name names.
+Proof.
+  intros OC F (L & A) P. unfold cap_step. rewrite handle_cap_by_kind, (classify_final _ F). cbv zeta.
+  assert (K : In name (akeys (tmp_after_ls cfg (in_now i) st (in_params i)))).
+  { apply tmp_after_ls_keys. right. auto. }
+  destruct (Nat.eqb (length (tmp_after_ls cfg (in_now i) st (in_params i))) 0) eqn:Z.
+  - apply Nat.eqb_eq, akeys_nil_length in Z. rewrite Z in K. destruct K.
+  - eexists. split; [reflexivity|]. now apply OC.
+Qed.
+
+(* ====================================================================== *)
+(* 6. Examples: the hypotheses are satisfiable, the branches are reachable  *)
+(* ====================================================================== *)
+
+Definition ex_cfg : cap_cfg :=
+  mkCfg (Some (bs "PLAIN")) false false false [] true None [] (bs "me") (bs "user") (bs "Real Name").
+Definition ex_cfg_nosasl : cap_cfg :=
+  mkCfg None false false false [(bs "echo-message", [])] true None (bs "pw") (bs "me") (bs "user") [].
+Definition ex_in (ps : list str) : cap_in := mkIn (fun l => l) false 1700000000000000000%Z ps.
+
+(* a two-line LS, the ACK, a DEL *)
+Definition ex_h : list cap_in :=
+  [ ex_in [bs "*"; s_LS; s_star; bs "multi-prefix unknown-cap"];
+    ex_in [bs "*"; s_LS; bs "sasl=PLAIN,EXTERNAL message-tags"];
+    ex_in [bs "me"; s_ACK; bs "sasl multi-prefix Message-Tags"];
+    ex_in [bs "me"; s_DEL; bs "multi-prefix" ] ].
+
+Example ex_id_ord : ord_sound (fun l => l) /\ ord_complete (fun l => l).
+Proof. split; intros l x H; exact H. Qed.
+
+Example ex_outs :
+  cap_outs ex_cfg (cap_init sts_init) ex_h =
+  [ []; [out_REQ [bs "sasl"; bs "message-tags"; bs "multi-prefix"]]; [out_AUTH (bs "PLAIN")]; [] ].
+Proof. vm_compute. reflexivity. Qed.
+
+Example ex_expectations :
+  List.map (fun i => expects_conclusion (in_params i)) ex_h = [false; true; true; false].
+Proof. vm_compute. reflexivity. Qed.
+
+(* hypotheses of C08_req_safe *)
+Example ex_req_written :
+  In (Write s_CAP [s_REQ; bs "sasl message-tags multi-prefix"])
+     (snd (cap_step ex_cfg (cap_after ex_cfg (cap_init sts_init) (firstn 1 ex_h))
+                    (ex_in [bs "*"; s_LS; bs "sasl=PLAIN,EXTERNAL message-tags"]))) /\
+  In (bs "sasl") (split_byte 32 (bs "sasl message-tags multi-prefix")).
+Proof. vm_compute. split; [left; reflexivity|left; reflexivity]. Qed.
+
+Example ex_has_capability :
+  let en := st_enabled (cap_after ex_cfg (cap_init sts_init) ex_h) in
+  has_capability true en (bs "SASL") = true /\
+  has_capability true en (bs "message-tags") = true /\        (* acknowledged as "Message-Tags" *)
+  has_capability true en (bs "multi-prefix") = false /\       (* deleted *)
+  has_capability true en (bs "unknown-cap") = false /\
+  has_capability false en (bs "sasl") = false /\
+  (* the tag gate looks the exact key up *)
+  tag_section_present (send_loop_tags en (Some [(bs "k", bs "v")])) = false.
+Proof. vm_compute. repeat split. Qed.
+
+Example ex_tags_pass :
+  let en := st_enabled (cap_after ex_cfg (cap_init sts_init)
+                         [ex_in [bs "*"; s_LS; bs "message-tags"]; ex_in [bs "me"; s_ACK; bs "message-tags"]]) in
+  tag_section_present (send_loop_tags en (Some [(bs "k", bs "v")])) = true /\
+  tag_section_present (send_loop_tags en (Some [])) = false /\
+  tag_section_present (send_loop_tags en None) = false /\
+  has_tags (Some [(bs "k", bs "v")]).
+Proof. vm_compute. repeat split. eexists. split; [reflexivity|discriminate]. Qed.
+
+(* NAK, nothing usable, STS upgrade, invalid STS policy, AUTHENTICATE not without SASL *)
+Example ex_other_conclusions :
+  cap_outs ex_cfg_nosasl (cap_init sts_init)
+    [ ex_in [bs "*"; s_LS; bs "unknown-cap"];                      (* nothing usable -> END *)
+      ex_in [bs "*"; s_NEW; bs "echo-message sasl"];               (* sasl not configured *)
+      ex_in [bs "me"; s_NAK; bs "echo-message"];
+      ex_in [bs "me"; s_ACK; bs "sasl"];                           (* unsolicited: still END *)
+      ex_in [bs "*"; s_LS];                                        (* bare LS: no reply *)
+      ex_in [bs "*"; s_LS; bs "sts=port=6697"];
+      ex_in [bs "me"; s_ACK; bs "sts"] ] =
+  [ [out_END]; [out_REQ [bs "echo-message"]]; [out_END]; [out_END]; [];
+    [out_REQ [bs "sts"]]; [Upgrade] ] /\
+  cap_outs ex_cfg_nosasl (cap_init sts_init)
+    [ ex_in [bs "*"; s_LS; bs "sts=port=5"]; ex_in [bs "me"; s_ACK; bs "sts"] ] =
+  [ [out_REQ [bs "sts"]]; [InjectError (Some [(bs "port", bs "5")])] ].
+Proof. vm_compute. split; reflexivity. Qed.
+
+Example ex_registration :
+  List.map fst (registration_writes ex_cfg_nosasl) = [s_PASS; s_CAP; s_NICK; s_USER].
+Proof. vm_compute. reflexivity. Qed.
